@@ -1345,3 +1345,30 @@ Proof.
   intros conv pages rows H. subst rows. unfold consume_pages, produce. f_equal.
   induction pages as [|p pages IH]; simpl; [reflexivity|]. rewrite map_app, IH. reflexivity.
 Qed.
+
+(* ------------------------------------------------------------------ streams under a done context *)
+Lemma In_items_not_close : forall conv (rows : list row), ~ In SClose (map (fun r => SItem (conv r)) rows).
+Proof. intros conv rows H. apply in_map_iff in H. destruct H as [r [H _]]. discriminate. Qed.
+
+Lemma items_of_app_err : forall xs e tl, items_of (map SItem xs ++ repeat SErr e ++ SClose :: tl) = xs.
+Proof.
+  intros xs e tl. induction xs as [|x xs IH]; simpl.
+  - destruct e; reflexivity.
+  - rewrite IH. reflexivity.
+Qed.
+
+Lemma produce_cancelled_closed : forall conv res k e,
+  exists body, produce_cancelled conv res k e = body ++ [SClose] /\ ~ In SClose body /\
+               items_of (produce_cancelled conv res k e)
+               = match res with Some rows => map conv (firstn k rows) | None => [] end.
+Proof.
+  intros conv res k e. unfold produce_cancelled.
+  exists (match res with Some rows => map (fun r => SItem (conv r)) (firstn k rows) | None => [] end ++ repeat SErr e).
+  split; [rewrite <- app_assoc; reflexivity|]. split.
+  - rewrite in_app_iff. intros [H|H].
+    + destruct res as [rows|]; [apply In_items_not_close in H; exact H | exact H].
+    + apply repeat_spec in H. discriminate.
+  - destruct res as [rows|].
+    + rewrite <- (map_map conv SItem). apply items_of_app_err.
+    + apply (items_of_app_err [] e []).
+Qed.
